@@ -105,6 +105,18 @@ Theorem C19_instance_survives_scenario : forall scenarios,
 Proof. exact instance_scenario_survives. Qed.
 Print Assumptions C19_instance_survives_scenario.
 
+(* grpc gun: over any history of call results (unknown method, unfit payload, any status incl. Unavailable from a
+   refusing target) the instance never fails and reports one sample per ammo; binding a new instance does not depend
+   on the target accepting connections at that moment (non-blocking dial) *)
+Theorem C19_instance_survives_grpc : forall rs,
+  snd (instance_run (map grpc_shoot rs)) = false /\ length (fst (instance_run (map grpc_shoot rs))) = length rs.
+Proof. exact instance_grpc_survives. Qed.
+Print Assumptions C19_instance_survives_grpc.
+
+Theorem C19_grpc_bind_ignores_target_state : forall w a b, grpc_bind w a = grpc_bind w b.
+Proof. exact grpc_bind_ignores_target. Qed.
+Print Assumptions C19_grpc_bind_ignores_target_state.
+
 (* non-vacuity / the inputs of DESIGN.md section 6 #24 on the repaired closure *)
 Example C19_example_substr :
   substr_seq {| sb_start := -10; sb_end := 0 |} [[97%N; 98%N; 99%N]] = [Done [97%N; 98%N; 99%N]] /\
